@@ -355,6 +355,10 @@ def harness_cases(tier, sd):
         # a failure, then the failed target alone succeeds, then everything: its dependents must notice
         add("fail", name, [B(top), es, B(top, fail=[inner[0]]), B(inner[0]), B(top), B(top)])
         add("fail", name, [B(top), es, B(top, fail=[inner[0]]), es, B(inner[0]), B(top), B(top)])
+        # the same protocol as seen by the callback of the run() builtin (a REPL session)
+        R = lambda *a, **k: B(*a, via="repl", **k)
+        add("repl", name, [R(top), es, R(top, "dry"), R(top, fail=[inner[0]]), R(top, "dry"), R(top), R(top)])
+        add("repl", name, [B(top), es, R(top, fail=[top]), R(top, "always"), R(top)])
         if name in RESHAPE:
             add("gc", name, [B(top), {"op": "reshape"}, B(roots_of(RESHAPE[name])[0], gc=True), B(roots_of(RESHAPE[name])[0])])
             # a dry run while part of the project is away (BUILD files edited), then the edit is undone:
